@@ -75,6 +75,15 @@ fn family(name: &str, n: usize) -> String {
         "element-nesting-unclosed" => "<a>".repeat(n),
         "siblings" => format!("<r>{}</r>", "<a/>".repeat(n)),
         "attributes" => format!("<r {}/>", (0..n).map(|i| format!("a{}=\"v\"", i)).collect::<Vec<_>>().join(" ")),
+        // prefixed and unprefixed names in one tag, in an order that is not sorted by any single rule
+        "attributes-mixed-prefixes" => {
+            let pre = ["", "p:", "q:", "", "xml:", "r:"];
+            let loc = ["c", "a", "b", "id", "lang", "z", "k"];
+            let attrs: Vec<String> = (0..n).map(|i| format!("{}{}{}=\"v\"", pre[(i * 5 + i / 3) % pre.len()], loc[(i * 3) % loc.len()], if pre[(i * 5 + i / 3) % pre.len()] == "xml:" { String::new() } else { (i / 2).to_string() })).collect();
+            let mut seen = std::collections::BTreeSet::new();
+            let attrs: Vec<String> = attrs.into_iter().filter(|a| seen.insert(a.split('=').next().unwrap_or("").to_string())).collect();
+            format!("<r xmlns:p=\"urn:p\" xmlns:q=\"urn:q\" xmlns:r=\"urn:r\" {}/>", attrs.join(" "))
+        }
         "long-comment" => format!("<r><!--{}--></r>", "-a".repeat(n)),
         "long-text" => format!("<r>{}</r>", "ab ".repeat(n)),
         "choice-groups" => format!("<!DOCTYPE r [<!ELEMENT r {}a|b{}>]><r/>", "(".repeat(n), ")".repeat(n)),
@@ -141,6 +150,7 @@ const FAMILIES: &[(&str, &[usize])] = &[
     ("element-nesting-unclosed", &[10, 100, 1000, 10000, 50000]),
     ("siblings", &[100, 2000, 20000]),
     ("attributes", &[50, 500, 3000]),
+    ("attributes-mixed-prefixes", &[8, 17, 21, 22, 25, 33, 40, 64, 200]),
     ("long-comment", &[100, 10000, 200000]),
     ("long-text", &[100, 100000]),
     ("choice-groups", &[2, 6, 10, 14, 18, 22, 26, 40, 200]),
